@@ -176,18 +176,40 @@ HANDOVER_CALLS = ('spawn', 'new_object', 'recycle_as_continuation', 'recycle_as_
                   'create_child')
 
 
-def is_signal(fn, pos, e):
-    u = elem_fn_uid(e, fn)
-    if u:
-        d = fn.facts.decls.get(u)
-        if d and d['p'] in SIGNAL_CALLS:
-            return True
+def _refcount_decrement(fn, e):
     if isinstance(e, int):
         op = atomic_op(fn, e)
         if op and op['kind'] == 'rmw' and op['name'] in ('fetch_sub', 'operator--', 'operator-=') and \
                 last_member(fn, op['obj']) in REFCOUNT_NAMES:
             return True
     return False
+
+
+def tree_folds(facts):
+    """primary names of the library's free functions that unwind a task tree: every path through them decrements a node's
+    reference counter by an atomic RMW (fold_tree and whatever variant of it the tree-based algorithms use).  Derived from
+    the code, so that a fold under another name is still a completion signal."""
+    got = getattr(facts, '_tree_folds', None)
+    if got is None:
+        got = set()
+        for g in facts.fns.values():
+            if g.kind != 'function' or not g.q.startswith('tbb::detail::d1::'):
+                continue
+            if not any(_refcount_decrement(g, e) for _, _, e in g.iter_elems()):
+                continue
+            if every_path_passes(g, 'entry', lambda p_, e, g=g: _refcount_decrement(g, e))[0]:
+                got.add(g.p)
+        facts._tree_folds = got
+    return got
+
+
+def is_signal(fn, pos, e):
+    u = elem_fn_uid(e, fn)
+    if u:
+        d = fn.facts.decls.get(u)
+        if d and (d['p'] in SIGNAL_CALLS or d['p'] in tree_folds(fn.facts)):
+            return True
+    return _refcount_decrement(fn, e)
 
 
 def is_dealloc(fn, pos, e):
@@ -204,7 +226,7 @@ def k7_task_class(facts, rep, clause, cls_p, exceptions, dealloc_clause=None):
     ex = facts.by_p.get(cls_p + '::execute', [])
     ca = facts.by_p.get(cls_p + '::cancel', [])
     n = 0
-    helpers = set(SIGNAL_CALLS) | set(DEALLOC_CALLS)
+    helpers = set(SIGNAL_CALLS) | set(DEALLOC_CALLS) | tree_folds(facts)
     for fn in ex + ca:
         which = 'execute' if fn in ex else 'cancel'
         cl = Closure(facts, cls_p, helpers=helpers)
@@ -622,7 +644,13 @@ class MayThrow(object):
         if k == 'throw':
             return True
         if user_op(fn, e):
-            return True
+            if not n.get('tpl'):
+                return True
+            # "tpl": the template parameter belongs to an internal template that was given one of the library's own types
+            # (fold_tree<tree_node>, basic_tls<thread_data*>): built-in operators on such values cannot throw, calls are decided by
+            # the body of the resolved callee
+            if k not in ('call', 'ctor', 'new'):
+                return False
         if k == 'new':
             if not n.get('pl'):
                 return True            # allocation
